@@ -1,6 +1,7 @@
 mod ser;
 mod run;
 mod corpus;
+mod extract;
 
 fn main() {
     let args: Vec<String> = std::env::args().collect();
@@ -9,6 +10,7 @@ fn main() {
     let opt = |name: &str| args.iter().position(|a| a == name).and_then(|i| args.get(i + 1)).cloned();
     match cmd {
         "run" => run::main(flag("--no-in"), opt("--repeat").and_then(|x| x.parse().ok()).unwrap_or(1)),
+        "extract" => extract::main(&opt("--repo").unwrap_or("/repo".into()), opt("--out")),
         "corpus" => corpus::main(&opt("--repo").unwrap_or("/repo".into())),
         _ => {
             eprintln!("usage: harness run [--no-in] [--repeat k] < cases");
